@@ -45,6 +45,7 @@ func (fr *Frame) applySpec(sp *FuncSpec, fn *ssa.Function, name string, args []V
 	for _, cn := range comps {
 		cur := u.m.comp(st, cn.Name, cn.Sort)
 		_ = cur
+		u.m.noteWrite(cn.Name, Term{})
 		st.heap[cn.Name] = u.c.Fresh("hv_"+cn.Name, cn.Sort)
 	}
 	for _, g := range sp.Assigns {
@@ -283,6 +284,46 @@ func (u *Unit) assignSet() map[string]bool {
 
 // knownExternal: hook for externals that need engine-level modelling (none yet beyond specs).
 func (fr *Frame) knownExternal(fn *ssa.Function, full string, args []Value, st *State, pc Term, pos token.Pos, resT types.Type) (Value, bool) {
+	u := fr.u
+	switch full {
+	case "(*github.com/jackc/pgx/v4/pgxpool.Pool).BeginFunc":
+		// A-tx: BeginFunc runs the closure inside a transaction; it returns nil only if the closure
+		// returned nil and the commit succeeded (ghost event "commit"), otherwise nothing is committed.
+		if len(args) != 3 {
+			return nil, false
+		}
+		if p, ok := args[0].(PtrV); ok {
+			u.oblige(fr, "nil-deref", pos, "", pc, Ne(p.Base, IntLit(0)))
+		}
+		f, ok := args[2].(FuncV)
+		fnc, isFn := f.Fn.(*ssa.Function)
+		if !ok || !isFn {
+			return nil, false
+		}
+		u.extUsed["A-tx:pgxpool.Pool.BeginFunc"] = true
+		txT := fnc.Signature.Params().At(0).Type()
+		txv := u.m.FreshValue(st, "tx", txT)
+		if iv, ok := txv.(IfaceV); ok {
+			u.c.Assume(Ne(iv.Tag, IntLit(0)))
+		}
+		var cres Value
+		if fr.depth < maxInlineDepth {
+			cres = fr.inline(fnc, f.Bindings, []Value{txv}, st, pc, pos, fnc.Signature.Results().At(0).Type())
+		} else {
+			cres = u.m.FreshValue(st, "txres", fnc.Signature.Results().At(0).Type())
+		}
+		res := u.m.FreshValue(st, "beginfunc", resT).(IfaceV)
+		if ci, ok := cres.(IfaceV); ok {
+			u.c.Assume(Imp(pc, Imp(Eq(res.Tag, IntLit(0)), Eq(ci.Tag, IntLit(0)))))
+		}
+		nkey := "ev|commit|n"
+		cnt, have := st.ghost[nkey]
+		if !have {
+			cnt = u.ghostInit(nkey)
+		}
+		st.ghost[nkey] = u.c.Def("evn", Add(cnt, Ite(Eq(res.Tag, IntLit(0)), IntLit(1), IntLit(0))))
+		return res, true
+	}
 	return nil, false
 }
 
